@@ -168,8 +168,10 @@ def rule_proof_length(ctx, cfg='prod-all'):
     pf = 'bbsplus::proof::proof_finalize'
     s = za.summary(pf)
     got = s['retlen'].get(('m_cap',))
-    yield Ob('RF-N', '%s#m_cap-count' % pf, got == ('len:undisclosed_messages', 0), 'the proof carries exactly one response per undisclosed message', pf,
-             fact=tfmt(got), expected='len:undisclosed_messages')
+    # (a count the length domain cannot name - e.g. the shorter side of a zip of two lists whose lengths are related only in the callers - is
+    # undecided; a definite count that differs is a violation)
+    yield Ob('RF-N', '%s#m_cap-count' % pf, None if got is None else got == ('len:undisclosed_messages', 0),
+             'the proof carries exactly one response per undisclosed message', pf, fact=tfmt(got), expected='len:undisclosed_messages')
     for fn2, exp2 in (('bbsplus::proof::BBSplusZKPoK::to_bytes', [(['s_cap'], '32', 'append'), (['m_cap'], '32', 'each'), (['challenge'], '32', 'append')]),
                       ('bbsplus::commitment::BBSplusCommitment::to_bytes', None)):
         lay2 = writer_layout(ctx, cfg, fn2)
